@@ -28,7 +28,7 @@ SeenBy(body, hidden) == IF hidden THEN 0 ELSE body
 \*         fin = the stream finished in this turn (no sentinel), last = size of the last cycle written (0 if none)
 RECURSIVE Loop(_, _, _, _, _, _, _, _)
 Loop(script, eager, pos, body, n, last, cap, hidden) ==
-  IF pos = Len(script) THEN [n |-> n, body |-> body, fin |-> TRUE, last |-> last]
+  IF pos >= Len(script) THEN [n |-> n, body |-> body, fin |-> TRUE, last |-> last]       \* (>=: total on any observed position)
   ELSE LET sz == script[pos + 1]
            b2 == body + sz IN
        IF eager /\ pos + 1 = Len(script) THEN [n |-> n + 1, body |-> b2, fin |-> TRUE, last |-> sz]
